@@ -991,7 +991,10 @@ def format_symbolic(I, fmt, a, k):
                 I.raise_builtin('ValueError', "Unknown format code '%s' for object of type 'float'" % spec[-1])
             if spec and spec[-1] in 'dxXobcfFeEgG%' and kind_of(arg) == 'str' and not isinstance(arg, Struct):
                 I.raise_builtin('ValueError', "Unknown format code '%s' for object of type 'str'" % spec[-1])
-    except (ValueError, IndexError):
+    except ValueError as e:
+        # a format string that str.format itself rejects (a single brace, ...) raises whatever the arguments are
+        I.raise_builtin('ValueError', str(e))
+    except IndexError:
         pass
     # str.format is the specification itself: an uninterpreted, deterministic function of its arguments
     return Struct('str.format', (fmt, tuple(a), tuple(sorted(k.items(), key=lambda kv: kv[0]))))
@@ -1068,7 +1071,10 @@ def install_modules(I):
     module('operator', add=opfn('Add'), sub=opfn('Sub'), mul=opfn('Mult'), truediv=opfn('Div'),
            mod=opfn('Mod'), pow=opfn('Pow'), floordiv=opfn('FloorDiv'),
            __eq__=opfn(None, 'Eq'), eq=opfn(None, 'Eq'), ne=opfn(None, 'NotEq'), gt=opfn(None, 'Gt'),
-           ge=opfn(None, 'GtE'), lt=opfn(None, 'Lt'), le=opfn(None, 'LtE'))
+           ge=opfn(None, 'GtE'), lt=opfn(None, 'Lt'), le=opfn(None, 'LtE'),
+           is_=Builtin('operator.is_', lambda I_, a, k: I_.compare('Is', a[0], a[1])),
+           is_not=Builtin('operator.is_not', lambda I_, a, k: I_.compare('IsNot', a[0], a[1])),
+           not_=Builtin('operator.not_', lambda I_, a, k: I_.unop('Not', a[0]) if hasattr(I_, 'unop') else (not I_.truth(a[0]))))
 
     # math
     def mathfn(name, sym=None):
